@@ -21,6 +21,26 @@ type ImageBuilder struct {
 
 func NewImageBuilder() *ImageBuilder { return &ImageBuilder{files: map[string]*fileState{}} }
 
+// LoadDir takes the files found under dir as the durable starting point (the state a previous crash left behind).
+func (ib *ImageBuilder) LoadDir(dir string) error {
+	return filepath.Walk(dir, func(p string, info os.FileInfo, err error) error {
+		if err != nil || info.IsDir() {
+			return err
+		}
+		rel, err := filepath.Rel(dir, p)
+		if err != nil {
+			return err
+		}
+		b, err := os.ReadFile(p)
+		if err != nil {
+			return err
+		}
+		ib.files[rel] = &fileState{exists: true, durable: b}
+		ib.order = append(ib.order, rel)
+		return nil
+	})
+}
+
 func applyWrite(b []byte, off int64, data []byte) []byte {
 	end := int(off) + len(data)
 	if end > len(b) {
